@@ -36,6 +36,7 @@ class Engine:
         self.prefix_stubs = []
         self.concretize_stores = False
         self.deadline = None          # wall-clock limit (time.time() value): paths still running then are cut (Budget)
+        self.lazy_branches = False    # search mode: symbolic branches fork without a feasibility query
         self.region_hook = None       # called as hook(st, 'load'|'store', region, index, nbytes, value) on array-region accesses
 
     # ------------------------------------------------------------------ solver
@@ -923,7 +924,8 @@ class Engine:
                 if is_c(cv): self.goto(fr, tl if cv else fl)
                 else:
                     ct = cv == 1
-                    (t_ok, mt), (f_ok, mf) = self.feasible(st, ct)
+                    if self.lazy_branches: (t_ok, mt), (f_ok, mf) = (True, None), (True, None)   # both sides taken unchecked; the caller decides feasibility at the end
+                    else: (t_ok, mt), (f_ok, mf) = self.feasible(st, ct)
                     if t_ok and f_ok:
                         o = st.fork(); of = o.frames[-1]
                         o.pc.append(z3.Not(ct)); o.model = mf; self.goto(of, fl)
